@@ -146,9 +146,10 @@ let asg_str f (x : nat -> nat) =
 let inf = 1 lsl 50
 let evtabs : (string, string * int list) Hashtbl.t = Hashtbl.create 31
 let ev_str v = if v >= inf then "inf" else string_of_int v
+let ev_dump_hook : (string -> int list -> string) ref = ref (fun _ _ -> "")
 let show_ev name =
-  let (_, tb) = Hashtbl.find evtabs name in
-  emit (Printf.sprintf "%s tab=%s" name (Stdlib.String.concat "," (List.map ev_str tb)))
+  let (fn, tb) = Hashtbl.find evtabs name in
+  emit (Printf.sprintf "%s tab=%s%s" name (Stdlib.String.concat "," (List.map ev_str tb)) (!ev_dump_hook fn tb))
 let ev_value s = if s = "inf" then inf else int_of_string s
 
 
@@ -168,6 +169,39 @@ let tab_index f (y : nat -> nat) =
 let dd_of_table f (tb : z list) : dd =
   let arr = Array.of_list tb in
   of_fun (szf f) f.rule (nat_of_int (nlev f)) O (fun y -> arr.(tab_index f y)) (fun _ -> O)
+(* canonical EV+ diagram of a table (fully- and quasi-reduced forests): EvDD.ev_of_fun,
+   proved canonical in EvP.ev_canon; printed like the implementation's dump *)
+let ev_dump_str f (tb : int list) : string =
+  let arr = Array.of_list tb in
+  let g y = let v = arr.(tab_index f y) in if v >= inf then None else Some (z_of_int v) in
+  let (rv, rt) = ev_of_fun (szf f) (f.rule = FR) (nat_of_int (nlev f)) g (fun _ -> O) in
+  let ids : (evdd, int) Hashtbl.t = Hashtbl.create 31 in
+  let next = ref 1 in
+  let body = Buffer.create 100 in
+  let rec reff (v, t) = match v with
+    | None -> "inf"
+    | Some z ->
+      string_of_int (int_of_z z) ^ ":" ^ (match t with EO -> "w" | EN (_, _, _) -> "n" ^ string_of_int (visit t))
+  and visit t =
+    match Hashtbl.find_opt ids t with
+    | Some i -> i
+    | None ->
+      (match t with
+       | EN (k, vs, cs) ->
+         let rs = List.map2 (fun v c -> reff (v, c)) vs cs in
+         let me = !next in
+         incr next;
+         Hashtbl.add ids t me;
+         Buffer.add_string body (Printf.sprintf " n%d=L%d[%s]" me (mlevel f (int_of_nat k)) (Stdlib.String.concat " " rs));
+         me
+       | EO -> 0)
+  in
+  let r = reff (rv, rt) in
+  "root=" ^ r ^ Buffer.contents body
+let () = ev_dump_hook := (fun fn tb ->
+    match Hashtbl.find_opt fors fn with
+    | Some f when f.lab = EVP && f.rule <> IR -> " dump=" ^ ev_dump_str f tb
+    | _ -> "")
 let everr_name = function ESubInf -> "SUBTRACT_INFINITY" | EDivZero -> "DIVIDE_BY_ZERO" | EInfDivInf -> "INFINITY_DIV_INFINITY"
 
 (* ---- parsing helpers ---- *)
